@@ -332,7 +332,10 @@ class G:
             kind = "ref" if (self.cfg.byref and r.random() < self.cfg.byref_p) else "val"
             params.append((kind, Var(r.choice([U, U, B]))))
         ret = r.choice([N, U, U, B])
-        s = Sub(sid, r.choice(["f", "g", "helper", "my_sub", "x1"]) + str(sid), params, ret)
+        decl = "any" if (ret != N and r.random() < 0.15) else ret
+        if decl == "any":
+            self.note("sub:anytype")
+        s = Sub(sid, r.choice(["f", "g", "helper", "my_sub", "x1"]) + str(sid), params, ret, None, decl)
         return s
 
     def sub_body(self, s: Sub, d):
@@ -422,6 +425,11 @@ def required_version(n) -> int:
             m = max(m, 5)
         if t == "wideratio":
             m = max(m, 5)
+        if t == "itxn":
+            m = max(m, 6 if len(n[1]) > 1 else 5)
+        if t == "maybe":
+            from recipes import MAYBE
+            m = max(m, MAYBE[n[1]][5])
         if t in ("dload", "dstore"):
             m = max(m, 5)
         if t in ("pload", "pstore"):
